@@ -88,13 +88,25 @@ PROPS["C15"] = {
     ],
 }
 
+PROPS["C18"] = {
+    "units": ["dbfacade"],
+    "kani": [],
+    "level_text": "Proof on the real Brc20ProgDatabase::get_logs (three nested loops with invariants, termination): ranges wider than 6 blocks are refused; otherwise the result equals, as a sequence, the matching logs of the receipts of the range scan [key(from,0), key(to+1,0)) in entry order and log order, with the filter written from the statement (address equal if given; per position: null wildcard, single value equal, list = alternatives, null inside a list matches nothing).",
+    "level_note": COMMON_TRUST + "The range scan itself is the table's get_range CONTRACT (complete, duplicate-free, encoded-key order; body of get_range not yet under proof) and key order = (block, index) order is the U128 codec order lemma (C14). Rule N28 turns the two `for` loops that use `continue` into index loops (Verus has no `continue` in for-loops). Requires from <= to (a reversed range relies on wrapping arithmetic of the release profile and is refused as too large). Not covered: parse_block_number, the async handler, log contents produced by revm.",
+    "assumptions": [
+        "BlockCachedDatabase::get_range contract assumed (stage 2)",
+        "from <= to and heights < 2^63 are preconditions",
+        "N28: `for x in vec` with `continue` rewritten to an index loop cloning the element",
+    ],
+}
+
 NOT_APPLICABLE = {
     "C07": "conservation is a property of Solidity/EVM bytecode executed by revm; neither Verus nor Kani has a semantics for it, no contract within reach can state it",
     "C10": "non-mutation is the frame condition of revm's replay/transact_one inside async fns; it could only be assumed, not proved, on code within reach",
     "C11": "quantifies over thread schedules; Kani has no threads, Verus would need permission types threaded through the code (different code)",
     "C17": "relational equivalence of two entry points of an external interpreter over arbitrary bytecode; no contract on code within reach expresses it",
 }
-PENDING = ["C02", "C04", "C05", "C06", "C08", "C09", "C14", "C18", "C19"]
+PENDING = ["C02", "C04", "C05", "C06", "C08", "C09", "C14", "C19"]
 for _p in PENDING:
     if _p not in PROPS:
         NOT_APPLICABLE[_p] = "check under construction in this commit (DESIGN.md 0); claimed once its units discharge"
